@@ -23,7 +23,7 @@ ASSUMPTIONS = [
     "GeneratedCodeOrigin is a code origin for the purpose of '+' (it subclasses CodeOrigin)",
     "points with equal index but different line/column are compared like any others: by index only",
 ]
-MUST_SEE = ["ranges_past_end_of_text", "concat_of_many_operands", "get_raw_after_file_appeared", "grid_pairs", "grid_triples", "illformed_rejected", "hull_merges", "multi_results", "multi_operands", "sourceset_results", "get_raw_checked", "nested_range_pairs", "equal_but_distinct_sources", "same_index_other_linecol"]
+MUST_SEE = ["algebra_after_source_registry_was_cleared", "ranges_past_end_of_text", "concat_of_many_operands", "get_raw_after_file_appeared", "grid_pairs", "grid_triples", "illformed_rejected", "hull_merges", "multi_results", "multi_operands", "sourceset_results", "get_raw_checked", "nested_range_pairs", "equal_but_distinct_sources", "same_index_other_linecol"]
 CONFIG = {
     "quick": {"shards": 16, "tuples": 15000, "watchdog_s": 300},
     "thorough": {"shards": 32, "tuples": 40000, "watchdog_s": 3000},
@@ -311,6 +311,13 @@ def origin_checks(ctx):
 
     singles = single_pool()
     built = {sp: O.build_origin(sp) for sp in singles}
+    if ctx.shard % 4 == 1:
+        # the registry of sources is emptied after the sources exist (the documented start of a new index-based dump): the
+        # algebra compares sources, not their places in that registry
+        from pyoak.origin import Source
+
+        Source.clear_registry()
+        ctx.count("algebra_after_source_registry_was_cleared")
 
     # get_raw for every text x range (sampled start/end over the whole text incl. astral chars)
     if ctx.shard == 0:
